@@ -1058,7 +1058,7 @@ def selftest():
 
 def jobs(tier, seed):
     q = tier == 'quick'
-    plan = {'ref': (8, 1500 if q else 20000), 'lxml': (4, 1500 if q else 20000), 'laws': (3, 1000 if q else 12000)}
+    plan = {'ref': (8, 1500 if q else 12000), 'lxml': (4, 1500 if q else 12000), 'laws': (3, 1000 if q else 8000)}
     out = []
     for chk, (shards, n) in plan.items():
         for i in range(shards):
